@@ -376,6 +376,18 @@ def _gen_op(o, g, f, cfg, cells, cols, models, rows_n, cell, spec_for):
         if len(free) < len(olds):
             return None
         r2 = g.random()
+        if r2 > 0.93:
+            # a rename that renames nothing (absent column, a column onto itself, the identity function): still a NEW table
+            kind = g.choice(['absent', 'self', 'identity'])
+            if kind == 'absent':
+                absent = [c for c in cols if c not in m.cols]
+                if not absent or len(absent) < 2:
+                    return None
+                return {'op': o, 't': t, 'map': [[absent[0], absent[1]]], 'via': 'rename', 'noop': True}
+            if kind == 'self':
+                c = g.choice(m.cols)
+                return {'op': o, 't': t, 'map': [[c, c]], 'via': g.choice(['rename', 'relabel', 'dictarg']), 'noop': True}
+            return {'op': o, 't': t, 'map': [], 'via': 'identity', 'noop': True}
         if r2 > 0.8 and len(m.cols) >= 2:
             # a swap / rotation / shift inside ONE call: a new name may be the old name of another renamed column
             k2 = g.randint(2, min(3, len(m.cols)))
@@ -732,6 +744,11 @@ def model_apply(op, models):
             for r, v in zip(new.rows, vals):
                 r[it[0]] = v
         return ('table', new)
+    if o == 'rename' and op.get('noop'):
+        mp = {a: b for a, b in op['map']}
+        if any(a in m.cols and a != b for a, b in mp.items()) or any(b in m.cols and a != b for a, b in mp.items()):
+            return ('skip',)
+        return ('table', m.copy())
     if o == 'rename':
         mp = {a: b for a, b in op['map']}
         if any(a not in m.cols for a in mp) or len(set(mp.values())) != len(mp):
@@ -1197,6 +1214,8 @@ def real_apply(op, reals, dictable):
             return d.relabel('_s')
         if via == 'prefix':
             return d.rename('p_')
+        if via == 'identity':
+            return d.relabel(lambda key: key)
         if via == 'callable':
             return d.relabel(lambda key: key + key)
         if via == 'dictarg':
